@@ -37,3 +37,38 @@ struct Mutex {
 };
 
 } // namespace wit
+
+namespace wit {
+
+// Slab policies. PolPlain: unaligned map, no poisoning, defaults for all sizes.
+struct PolPlain {
+	uintptr_t map(size_t);
+	void unmap(uintptr_t, size_t);
+};
+
+// PolFull: aligned map, poisoning hooks, tracing, non-default geometry.
+struct PolFull {
+	static constexpr size_t slabsize = 1 << 16;
+	static constexpr size_t sb_size = 1 << 17;
+	static constexpr size_t pagesize = 0x1000;
+	static constexpr int num_buckets = 10;
+	uintptr_t map(size_t, size_t);
+	void unmap(uintptr_t, size_t);
+	void poison(void *, size_t);
+	void unpoison(void *, size_t);
+	void unpoison_expand(void *, size_t);
+	bool enable_trace();
+	void output_trace(void *, size_t);
+	template<typename F> void walk_stack(F f);
+};
+
+// PolPoisonPlain: unaligned map with poisoning (the other combination of the two if-constexpr axes).
+struct PolPoisonPlain {
+	uintptr_t map(size_t);
+	void unmap(uintptr_t, size_t);
+	void poison(void *, size_t);
+	void unpoison(void *, size_t);
+	void unpoison_expand(void *, size_t);
+};
+
+} // namespace wit
